@@ -26,23 +26,25 @@ def q(lst):
     return "{" + ", ".join('"%s"' % x for x in lst) + "}"
 
 
-def mc_cfg(direction, maxitems, maxchart, simkeys, chartkeys, valcodes, behkinds):
+def mc_cfg(direction, maxitems, maxchart, simkeys, chartkeys, valcodes, behkinds, noteslast=True):
     return ("SPECIFICATION Spec\nCONSTANTS\n Dir = \"%s\"\n MaxItems = %d\n MaxChartItems = %d\n SimKeys = %s\n ChartKeys = %s\n"
-            " ValCodes = %s\n BehKinds = %s\n DoEmit = TRUE\n%sINVARIANT Emit\n" % (
-                direction, maxitems, maxchart, q(simkeys), q(chartkeys), q(valcodes), q(behkinds),
+            " ValCodes = %s\n BehKinds = %s\n DoEmit = TRUE\n NotesLast = %s\n%sINVARIANT Emit\n" % (
+                direction, maxitems, maxchart, q(simkeys), q(chartkeys), q(valcodes), q(behkinds), "TRUE" if noteslast else "FALSE",
                 "".join("INVARIANT %s\n" % i for i in INVS)))
 
 
 def configs(direction, quick):
     if direction == "ssc2sm":
         if quick:
-            return [("a", (direction, 2, 1, ["VERSION", "COMBOS", "WARPS"], ["CHARTNAME", "COMBOS", "MUSIC"], ["empty", "padded", "other"], ["gameplay", "metadata"]))]
+            return [("a", (direction, 2, 1, ["VERSION", "COMBOS", "WARPS"], ["CHARTNAME", "COMBOS", "MUSIC"], ["empty", "padded", "other"], ["gameplay", "metadata"])),
+                    ("after-notes", (direction, 1, 1, ["COMBOS"], ["CHARTNAME", "COMBOS", "BPMS"], ["default", "other"], ["gameplay", "timing"], False))]
         return [("a", (direction, 2, 1, ["VERSION", "ORIGIN", "JACKET", "COMBOS", "WARPS"], ["CHARTNAME", "COMBOS", "BPMS", "MUSIC"],
                        ["empty", "default", "padded", "other"], ["metadata", "gameplay", "timing"])),
+                ("after-notes", (direction, 1, 2, ["COMBOS"], ["CHARTNAME", "COMBOS", "BPMS", "WARPS"], ["empty", "default", "other"], ["metadata", "gameplay", "timing"], False)),
                 ("b", (direction, 3, 0, ["VERSION", "JACKET", "SCROLLS", "LABELS"], ["CHARTNAME"], ["default", "other"], ["version", "filepath", "gameplay", "metadata"]))]
     if quick:
-        return [("sm", (direction, 2, 0, ["BPMS", "STOPS", "FREEZES", "ANIMATIONS", "LABELS", "OFFSET"], ["CHARTNAME"], ["bpm", "bpmneg", "stop", "stopneg", "empty"], []))]
-    return [("sm", (direction, 3, 0, ["BPMS", "STOPS", "FREEZES", "ANIMATIONS", "LABELS", "OFFSET", "BGCHANGES"], ["CHARTNAME"], ["bpm", "bpmneg", "stop", "stopneg", "empty"], []))]
+        return [("sm", (direction, 2, 0, ["BPMS", "STOPS", "FREEZES", "ANIMATIONS", "LABELS", "OFFSET"], ["CHARTNAME"], ["bpm", "bpmneg", "stop", "stopneg", "stopzero", "none", "empty"], []))]
+    return [("sm", (direction, 3, 0, ["BPMS", "STOPS", "FREEZES", "ANIMATIONS", "LABELS", "OFFSET", "BGCHANGES"], ["CHARTNAME"], ["bpm", "bpmneg", "stop", "stopneg", "stopzero", "none", "empty"], []))]
 
 
 def s2c_job(job):
@@ -192,6 +194,10 @@ def gen_ssc(rng, corp):
                 else:
                     c[k] = v
                     c.move_to_end("NOTES")
+        if rng.random() < 0.25:          # an in-memory edit leaves a property behind the note data
+            k = rng.choice(SSC_CHART_PROPS)
+            c.pop(k, None)
+            c[k] = rand_state(rng, k) or ""
         if rng.random() < 0.3:
             c.stepstype = rng.choice(["dance-single", "pump-single", ""])
             c.meter = str(rng.randint(1, 20))
